@@ -251,6 +251,9 @@ func (r *Run) Violations() int {
 
 func (r *Run) writeReplayLocked(tag, sig, what string, c any) string {
 	dir := filepath.Join(r.Root, "replays")
+	if os.Getenv("VERIF_MUTANT") != "" { // self-validation runs do not touch the real replay directory
+		dir = filepath.Join(r.RunDir, "replays")
+	}
 	_ = os.MkdirAll(dir, 0o755)
 	n := r.violBySig[sig] + r.knownHits[sig]
 	name := fmt.Sprintf("%s-s%d-%s-%d.json", r.ID, r.Seed, sanitize(tag), n)
